@@ -1,0 +1,99 @@
+//go:build verif
+
+// Machine-checked contracts for package throttle (comment-only, tag verif).
+
+package throttle
+
+// Ghost: events = number of WhenThrottled notifications delivered to a listener.
+// The wrapped recorder is specified by the sink automaton of package recorder;
+// the token bucket by /verif/contracts/ratelimit.spec.
+
+//@ ghost field ThrottledEventListener.events int
+
+//@ iface (l ThrottledEventListener) WhenThrottled
+//@   mode trusted
+//@   modifies l.events
+//@   ensures l.events == old(l.events) + 1
+
+//@ func (lis *nullListener) WhenThrottled
+//@   mode trusted
+
+// TInv: the throttle's flag mirrors the wrapped sink; while a file is open the
+// frames already in it plus the tokens still available cover a minimum-length clip.
+//@ pred (t *ThrottledRecorder) TInv() :=
+//@      !isnil(t.recorder) && ref(t.recorder) != 0 && !isnil(t.listener) && t.bucket != nil
+//@   && t.recording == t.recorder.open
+//@   && t.bucket.availableTokens >= 0
+//@   && (t.recording ==> t.recorder.inFile + t.bucket.availableTokens >= t.minRecordingLength)
+
+//@ func (throttler *ThrottledRecorder) CheckCanRecord
+//@   requires throttler != nil && throttler.TInv()
+//@   ensures [C06] (result == nil) == throttler.recorder.canRec && ncalls("CheckCanRecord") == 1
+
+//@ func (throttler *ThrottledRecorder) maybeStartRecording
+//@   requires throttler != nil && throttler.TInv() && !throttler.recording
+//@   modifies throttler.recording, throttler.bucket.availableTokens, throttler.bucket.latestTick
+//@   modifies throttler.recorder.open, throttler.recorder.inFile, throttler.recorder.wfault, throttler.recorder.starts, throttler.recorder.startOK, throttler.recorder.bg, throttler.recorder.thresh
+//@   ensures throttler.TInv() && throttler.bucket.availableTokens >= old(throttler.bucket.availableTokens)
+//@   ensures [C06] throttler.bucket.availableTokens >= throttler.minRecordingLength ==> (result == nil) == old(throttler.recorder.startOK) && throttler.recording == old(throttler.recorder.startOK) && throttler.recorder.starts == old(throttler.recorder.starts) + (old(throttler.recorder.startOK) ? 1 : 0)
+//@   ensures [C06] throttler.bucket.availableTokens >= throttler.minRecordingLength && throttler.recording ==> throttler.recorder.bg == ref(background) && throttler.recorder.thresh == tempThresh && throttler.recorder.inFile == 0
+//@   ensures [C06] throttler.bucket.availableTokens < throttler.minRecordingLength ==> result == nil && !throttler.recording && throttler.recorder.starts == old(throttler.recorder.starts) && throttler.recorder.startOK == old(throttler.recorder.startOK)
+//@   ensures [C06] ncalls("StartRecording") <= 1 && (ncalls("StartRecording") == 1 ==> callarg("StartRecording", 1, 1) == background && callarg("StartRecording", 1, 2) == tempThresh)
+
+//@ func (throttler *ThrottledRecorder) StartRecording
+//@   requires throttler != nil && throttler.TInv() && !throttler.recording
+//@   modifies throttler.recording, throttler.backgroundFrame, throttler.tempThresh, throttler.bucket.availableTokens, throttler.bucket.latestTick, throttler.listener.events
+//@   modifies throttler.recorder.open, throttler.recorder.inFile, throttler.recorder.wfault, throttler.recorder.starts, throttler.recorder.startOK, throttler.recorder.bg, throttler.recorder.thresh
+//@   ensures throttler.TInv()
+//@   ensures [C06] throttler.bucket.availableTokens >= throttler.minRecordingLength ==> (result == nil) == old(throttler.recorder.startOK) && throttler.recording == old(throttler.recorder.startOK) && throttler.recorder.starts == old(throttler.recorder.starts) + (old(throttler.recorder.startOK) ? 1 : 0) && throttler.listener.events == old(throttler.listener.events)
+//@   ensures [C06] throttler.bucket.availableTokens >= throttler.minRecordingLength && throttler.recording ==> throttler.recorder.bg == ref(background) && throttler.recorder.thresh == tempThresh
+//@   ensures [C06] throttler.bucket.availableTokens < throttler.minRecordingLength ==> result == nil && !throttler.recording && throttler.recorder.starts == old(throttler.recorder.starts) && throttler.listener.events == old(throttler.listener.events) + 1
+//@   ensures [C06] result == nil ==> throttler.backgroundFrame == background && throttler.tempThresh == tempThresh
+//@   ensures [C05] throttler.recorder.writes == old(throttler.recorder.writes) && throttler.bucket.gTaken == old(throttler.bucket.gTaken)
+
+//@ func (throttler *ThrottledRecorder) StopRecording
+//@   requires throttler != nil && throttler.TInv()
+//@   modifies throttler.recording, throttler.recorder.open, throttler.recorder.stops, throttler.recorder.stopOK
+//@   ensures throttler.TInv() && !throttler.recording
+//@   ensures [C06] old(throttler.recording) ==> throttler.recorder.stops == old(throttler.recorder.stops) + 1 && (result == nil) == old(throttler.recorder.stopOK)
+//@   ensures [C06] !old(throttler.recording) ==> throttler.recorder.stops == old(throttler.recorder.stops) && result == nil
+//@   ensures [C06] ncalls("StopRecording") == (old(throttler.recording) ? 1 : 0)
+//@   ensures [C05] throttler.recorder.writes == old(throttler.recorder.writes) && throttler.bucket.gTaken == old(throttler.bucket.gTaken)
+
+//@ func (throttler *ThrottledRecorder) WriteFrame
+//@   requires throttler != nil && throttler.TInv()
+//@   modifies throttler.recording, throttler.bucket.availableTokens, throttler.bucket.latestTick, throttler.bucket.gTaken, throttler.listener.events
+//@   modifies throttler.recorder.open, throttler.recorder.inFile, throttler.recorder.wfault, throttler.recorder.starts, throttler.recorder.startOK, throttler.recorder.bg, throttler.recorder.thresh
+//@   modifies throttler.recorder.next, throttler.recorder.first, throttler.recorder.writes, throttler.recorder.stops, throttler.recorder.stopOK
+//@   ensures throttler.TInv()
+//@   ensures [C05] throttler.recorder.writes - old(throttler.recorder.writes) == throttler.bucket.gTaken - old(throttler.bucket.gTaken) && (throttler.bucket.gTaken == old(throttler.bucket.gTaken) || throttler.bucket.gTaken == old(throttler.bucket.gTaken) + 1)
+//@   ensures [C06] ncalls("WriteFrame") <= 1 && (ncalls("WriteFrame") == 1 ==> callarg("WriteFrame", 1, 1) == frame && result == callres("WriteFrame", 1))
+//@   ensures [C06] throttler.recorder.writes != old(throttler.recorder.writes) ==> ncalls("WriteFrame") == 1 && throttler.listener.events == old(throttler.listener.events) && throttler.recorder.stops == old(throttler.recorder.stops) && throttler.recording
+//@   ensures [C06] old(throttler.recording) ==> throttler.recorder.starts == old(throttler.recorder.starts)
+//@   ensures [C06] old(throttler.recording) && throttler.recorder.writes == old(throttler.recorder.writes) ==> throttler.listener.events == old(throttler.listener.events) + 1 && throttler.recorder.stops == old(throttler.recorder.stops) + 1 && !throttler.recording && throttler.recorder.inFile >= throttler.minRecordingLength
+//@   ensures [C06] !old(throttler.recording) ==> (throttler.recorder.starts != old(throttler.recorder.starts)) == (throttler.bucket.availableTokens + (throttler.bucket.gTaken - old(throttler.bucket.gTaken)) >= throttler.minRecordingLength && old(throttler.recorder.startOK))
+//@   ensures [C06] !old(throttler.recording) && throttler.recorder.starts != old(throttler.recorder.starts) ==> throttler.recorder.bg == ref(old(throttler.backgroundFrame)) && throttler.recorder.thresh == old(throttler.tempThresh)
+//@   ensures [C06] !old(throttler.recording) && throttler.recorder.starts == old(throttler.recorder.starts) ==> throttler.recorder.writes == old(throttler.recorder.writes) && throttler.listener.events == old(throttler.listener.events) && throttler.recorder.stops == old(throttler.recorder.stops) && !throttler.recording
+//@   ensures [C06] !old(throttler.recording) && throttler.recorder.starts != old(throttler.recorder.starts) && throttler.minRecordingLength >= 1 ==> throttler.recorder.writes == old(throttler.recorder.writes) + 1
+//@   ensures [C06] throttler.listener.events == old(throttler.listener.events) || throttler.listener.events == old(throttler.listener.events) + 1
+
+//@ func NewThrottledRecorderWithClock(baseRecorder, config, minSeconds, listener, clock, camera)
+//@   allocates
+//@   requires config != nil && !isnil(baseRecorder) && ref(baseRecorder) != 0 && !isnil(camera) && !baseRecorder.open
+//@   requires time.dsecs(config.BucketSize) >= 0.0 && camera.FPS() >= 0
+//@   ensures fresh(result) && result.TInv() && !result.recording && result.recorder == baseRecorder
+//@   ensures [C05] result.bucket.capacity == floor(time.dsecs(config.BucketSize)) * camera.FPS() && result.bucket.availableTokens == result.bucket.capacity
+//@   ensures [C05,C06] result.minRecordingLength == minSeconds * camera.FPS()
+//@   ensures [C05] ratelimit.bucketRate(result.bucket) == real(minSeconds * camera.FPS()) / time.dsecs(config.MinRefill)
+//@   ensures [C06] !isnil(listener) ==> result.listener == listener
+//@   ensures [C05] ncalls("NewBucketWithRateAndClock") == 1 && callarg("NewBucketWithRateAndClock", 1, 2) == clock
+
+//@ func NewThrottledRecorder(baseRecorder, config, minSeconds, eventListener, camera)
+//@   allocates
+//@   requires config != nil && !isnil(baseRecorder) && ref(baseRecorder) != 0 && !isnil(camera) && !baseRecorder.open
+//@   requires time.dsecs(config.BucketSize) >= 0.0 && camera.FPS() >= 0
+//@   ensures fresh(result) && result.TInv() && !result.recording && result.recorder == baseRecorder
+//@   ensures [C05] result.bucket.capacity == floor(time.dsecs(config.BucketSize)) * camera.FPS() && result.bucket.availableTokens == result.bucket.capacity
+//@   ensures [C05,C06] result.minRecordingLength == minSeconds * camera.FPS()
+//@   ensures [C05] ratelimit.bucketRate(result.bucket) == real(minSeconds * camera.FPS()) / time.dsecs(config.MinRefill)
+//@   ensures [C06] !isnil(eventListener) ==> result.listener == eventListener
